@@ -1,3 +1,4 @@
+mod cdlevel;
 mod container;
 mod declared;
 mod detect;
@@ -6,6 +7,7 @@ mod names;
 mod oracle;
 mod props;
 mod sig;
+mod sigdump;
 mod total;
 mod util;
 
@@ -52,6 +54,16 @@ fn main() {
             let n = arg(&args, "--n").and_then(|s| s.parse().ok()).unwrap_or(1500);
             let r = declared::run(seed, n, &driver, &out);
             eprintln!("declared: {} evaluations, {} disagreements, {} violations", r["evaluations"], r["disagreements"].as_array().unwrap().len(), r["violations"].as_array().unwrap().len());
+        }
+        "cd" => {
+            let n = arg(&args, "--n").and_then(|s| s.parse().ok()).unwrap_or(300);
+            let r = cdlevel::run(seed, n, &driver, &out);
+            eprintln!("cd: {} evaluations, {} disagreements, {} violations", r["evaluations"], r["disagreements"].as_array().unwrap().len(), r["violations"].as_array().unwrap().len());
+        }
+        "sig" => {
+            let extra = arg(&args, "--extra").and_then(|s| s.parse().ok()).unwrap_or(100);
+            let rounds = arg(&args, "--rounds").and_then(|s| s.parse().ok()).unwrap_or(1);
+            sigdump::run(seed, extra, rounds, &out);
         }
         "total" => {
             let n = arg(&args, "--n").and_then(|s| s.parse().ok()).unwrap_or(200);
